@@ -7,7 +7,8 @@ package build
 // collect.go and createArchiveFile reach the file system through vos; every
 // call is a numbered point at which the verification harness can kill the
 // process (VERIF_CRASH_AT=k, optionally tearing a write in half with
-// VERIF_CRASH_TORN=1) or make the call fail (VERIF_FSERR=k:errno).  With none
+// VERIF_CRASH_TORN=1; or VERIF_CRASH_MATCH=op|substr|suffix to die just before
+// a particular operation) or make the call fail (VERIF_FSERR=k:errno).  With none
 // of these variables set the seam only forwards.
 
 import (
@@ -37,6 +38,13 @@ func verifPoint(op, path string) error {
 	if v := os.Getenv("VERIF_CRASH_AT"); v != "" {
 		if n, _ := strconv.Atoi(v); n == k && !(op == "write" && os.Getenv("VERIF_CRASH_TORN") != "") {
 			os.Exit(137) // no deferred clean-up runs, as after kill -9
+		}
+	}
+	if v := os.Getenv("VERIF_CRASH_MATCH"); v != "" {
+		// "<op>|<substring of the path>|<suffix of the path>": die just before the first such operation
+		m := strings.SplitN(v, "|", 3)
+		if len(m) == 3 && m[0] == op && strings.Contains(path, m[1]) && strings.HasSuffix(path, m[2]) {
+			os.Exit(137)
 		}
 	}
 	if v := os.Getenv("VERIF_FSERR"); v != "" {
